@@ -574,8 +574,15 @@ def case_ptn(ctx, cls, Ns):
         F = make(ctx, "ptn", cls, desc, g.PythagoreanTriples, N)
         if F is None:
             continue
-        triples = [(a, b, c) for a in range(1, N + 1) for b in range(a + 1, N + 1) for c in range(b + 1, N + 1)
-                   if a * a + b * b == c * c]
+        triples = []
+        for a in range(1, N + 1):
+            for b in range(a + 1, N + 1):
+                c2 = a * a + b * b
+                c = math.isqrt(c2)
+                if c > N:
+                    break
+                if c * c == c2:
+                    triples.append((a, b, c))
         v = lambda i: "v(%d)" % i
         ref = []
         for t in triples:
@@ -646,8 +653,11 @@ def case_large(ctx, cls):
         F = make(ctx, "cpls", cls, desc, g.CPLSFormula, a, b, c)
         if F is not None:
             structural(ctx, "cpls", desc, F, cpls_axioms(a, b, c), key=("cpls", a, b, c, cls), large=True)
-    for N in (60, 120, 200):
-        case_ptn(ctx, cls, [N])
+    # Pythagorean triples: every clause pair against an independent enumeration, also where the legs are close
+    # to the hypotenuse (119,120,169), (696,697,985) ... and at sizes the documentation advertises
+    big = [60, 120, 169, 170, 200, 338, 339, 400, 507, 565, 700, 985, 1000] if ctx.tier == "quick" else \
+        list(range(23, 420)) + [507, 508, 565, 700, 985, 986, 1000, 1394, 2000, 3000]
+    case_ptn(ctx, cls, big)
 
 
 # ------------------------------------------------------------------ workload
